@@ -1,4 +1,134 @@
-import AsyncVerif.Proofs.Core
+import AsyncVerif.Proofs.FaithfulTools
+/-!
+# C06 — errors from sources/callables surface unchanged where the stdlib would raise
+
+`Faithful m` (Proofs/Faithful.lean) is a statement about **every world**: every input, every fault
+position over the merged sequence of pulls, end checks and invocations, sync and async flavours
+alike (the model has one primitive for both), every consumer behaviour.  The two corollaries below
+spell out what it means; the `C06_<tool>` theorems establish it for each modelled tool.
+"Delivers exactly the items its stdlib counterpart delivers before failing" is the twin theorem of
+C05 (same visible log, hence same yields, in every world including the faulty ones).
+-/
 namespace AsyncVerif
-theorem C06_placeholder_true : True := trivial
+
+/-- If a run ends with user exception `e`, then the last visible event is the fault that raised `e`
+    (a source failing, a callable failing, or the consumer throwing it in): it is raised at once —
+    never deferred — and no source or callable is used after it. -/
+theorem C06_surfaces_at_once {α : Type} {m : M α} (h : Faithful m) (w : World) (e : Nat)
+    (he : (m w).1 = .error (.user e)) :
+    ∃ pre ev, (m w).2.vis = w.vis ++ pre ++ [ev] ∧ isFault e ev = true ∧ ∀ x ∈ pre, anyFault x = false := by
+  obtain ⟨new, hv, hr⟩ := h.run w
+  rcases hr with ⟨_, hne⟩ | ⟨pre, e', ev, hnew, hfe, hpre, hr⟩
+  · exact absurd he (hne e)
+  · rw [hr] at he
+    have : e' = e := by injection he with he; injection he
+    subst this
+    exact ⟨pre, ev, by rw [hv, hnew, List.append_assoc], hfe, hpre⟩
+
+/-- If any fault event occurs during a run, it is the last visible event and the run ends by
+    raising exactly that exception: it is never swallowed, replaced or wrapped. -/
+theorem C06_never_swallowed {α : Type} {m : M α} (h : Faithful m) (w : World) (new : List Ev)
+    (hv : (m w).2.vis = w.vis ++ new) (ev : Ev) (hev : ev ∈ new) (hf : anyFault ev = true) :
+    ∃ e, isFault e ev = true ∧ (m w).1 = .error (.user e) ∧ new.getLast? = some ev := by
+  obtain ⟨new', hv', hr⟩ := h.run w
+  have hnn : new' = new := List.append_cancel_left (hv'.symm.trans hv)
+  subst hnn
+  rcases hr with ⟨hnf, _⟩ | ⟨pre, e, ev', hnew, hfe, hpre, hr⟩
+  · have := hnf ev hev; rw [this] at hf; exact absurd hf (by simp)
+  · subst hnew
+    rcases List.mem_append.mp hev with h1 | h1
+    · have := hpre ev h1; rw [this] at hf; exact absurd hf (by simp)
+    · have : ev = ev' := by simpa using h1
+      subst this
+      exact ⟨e, hfe, hr, by simp⟩
+
+theorem C06_filter (fn : Option Nat) (s fuel : Nat) : Faithful (Impl.filter fn s fuel) :=
+  faithful_scopedIter s (Std.faithful_filterLoop fn false s fuel)
+
+theorem C06_filterfalse (fn : Option Nat) (s fuel : Nat) : Faithful (Impl.filterfalse fn s fuel) :=
+  faithful_scopedIter s (Std.faithful_filterLoop fn true s fuel)
+
+theorem C06_enumerate (s : Nat) (start : Int) (fuel : Nat) : Faithful (Impl.enumerate s start fuel) :=
+  faithful_scopedIter s (Std.faithful_enumerateLoop s fuel start)
+
+theorem C06_takewhile (f s fuel : Nat) : Faithful (Impl.takewhile f s fuel) :=
+  faithful_scopedIter s (Std.faithful_takewhileLoop f s fuel)
+
+theorem C06_dropwhile (f s fuel : Nat) : Faithful (Impl.dropwhile f s fuel) := by
+  unfold Impl.dropwhile
+  faith [Impl.faithful_dropPhase f s fuel]
+
+theorem C06_starmap (f s fuel : Nat) : Faithful (Impl.starmap f s fuel) :=
+  faithful_scopedIter s (Std.faithful_starmapLoop f s fuel)
+
+theorem C06_accumulate (fn : Option Nat) (initial : Option Val) (s fuel : Nat) :
+    Faithful (Impl.accumulate fn initial s fuel) :=
+  faithful_scopedIter s (Std.faithful_accumulate fn initial s fuel)
+
+theorem C06_batched (n : Nat) (strict : Bool) (s fuel : Nat) : Faithful (Impl.batched n strict s fuel) := by
+  unfold Impl.batched
+  faith [Std.faithful_batchedLoop n strict s fuel]
+
+theorem C06_chain_iterator (srcs : List Nat) (fuel : Nat) : Faithful (Impl.chainIter srcs fuel) :=
+  Impl.faithful_chainIter srcs fuel
+
+theorem C06_compress (d sel fuel : Nat) : Faithful (Impl.compress d sel fuel) := by
+  unfold Impl.compress
+  refine faithful_scopedIter d (faithful_scopedIter sel (faithful_tryFinally ?_ (closeAll_quiet _)))
+  apply Std.faithful_zipLoop
+  intro row
+  faith
+
+theorem C06_cycle (s fuel : Nat) : Faithful (Impl.cycle s fuel) := by
+  unfold Impl.cycle
+  faith [Std.faithful_cycleFirst s fuel, Std.faithful_replay]
+
+theorem C06_islice (s start : Nat) (stop : Option Nat) (step fuel : Nat) :
+    Faithful (Impl.islice s start stop step fuel) := by
+  unfold Impl.islice
+  faith [Std.faithful_skipTo s start, Impl.faithful_idxLoop s step]
+
+theorem C06_pairwise (s fuel : Nat) : Faithful (Impl.pairwise s fuel) :=
+  faithful_scopedIter s (Std.faithful_pairwise s fuel)
+
+theorem C06_zip (srcs : List Nat) (fuel : Nat) : Faithful (Impl.zip srcs fuel) := by
+  unfold Impl.zip
+  split
+  · exact faithful_pure _
+  · exact faithful_tryFinally (Std.faithful_zipLoop srcs _ (fun row => faithful_yieldV _) fuel) (closeAll_quiet srcs)
+
+theorem C06_zip_strict (srcs : List Nat) (fuel : Nat) : Faithful (Impl.zipStrict srcs fuel) := by
+  unfold Impl.zipStrict
+  split
+  · exact faithful_pure _
+  · exact faithful_tryFinally (Std.faithful_zipStrictLoop srcs fuel) (closeAll_quiet srcs)
+
+theorem C06_map (f : Nat) (srcs : List Nat) (fuel : Nat) : Faithful (Impl.map f srcs fuel) := by
+  unfold Impl.map
+  split
+  · exact faithful_pure _
+  · refine faithful_tryFinally (Std.faithful_zipLoop srcs _ ?_ fuel) (closeAll_quiet srcs)
+    intro row
+    faith
+
+theorem C06_zip_longest (fillv : Val) (srcs : List Nat) (fuel : Nat) : Faithful (Impl.zipLongest fillv srcs fuel) := by
+  unfold Impl.zipLongest
+  split
+  · exact faithful_pure _
+  · exact faithful_tryFinally (Std.faithful_zipLongestLoop fillv fuel _ _) (closeAll_quiet srcs)
+
+theorem C06_iter_sentinel (f : Nat) (sentinel : Val) (fuel : Nat) : Faithful (Impl.iterSentinel f sentinel fuel) :=
+  Std.faithful_iterSentinel f sentinel fuel
+
+theorem C06_all (s fuel : Nat) : Faithful (Impl.all s fuel) := faithful_scopedIter s (Std.faithful_allLoop s fuel)
+theorem C06_any (s fuel : Nat) : Faithful (Impl.any s fuel) := faithful_scopedIter s (Std.faithful_anyLoop s fuel)
+
+/-! Non-vacuity: a concrete world in which the source of `filter` fails at its third use. -/
+private def w0 : World :=
+  { srcs := fun _ => { kind := .agen, script := [.item (.obj 1 1), .item (.obj 2 0), .err 7, .item (.obj 3 1)] },
+    fns := fun _ _ args => .ok (.bool ((args.headD .none).truthy)),
+    calls := fun _ => 0, cons := .run 0 .exhaust, vis := [], rel := [] }
+
+example : (Impl.filter (some 0) 0 10 w0).1 = .error (.user 7) := by rfl
+
 end AsyncVerif
